@@ -332,7 +332,7 @@ fn main() {
         let arr = |n: u64| Ty::Array(Box::new(Ty::Scalar(idx("unsigned char"))), vec![n]);
         let mut decls = vec![];
         for (i, n) in [0x0100_0000u64, 0x1000_0000, 0x2000_0000, 0x3fff_fff0].into_iter().enumerate() {
-            decls.push(Decl::Record(Record { is_union: i == 3, tag: format!("Huge{i}"), typedef_name: String::new(), packed: false, aligned: None, pragma_pack: None,
+            decls.push(Decl::Record(Record { is_union: i == 3, tag: format!("Huge{i}"), typedef_name: String::new(), packed: false, aligned: None, pragma_pack: None, extra_attr: if i == 1 { Some("deprecated") } else { None },
                 members: vec![plain("magic", Ty::Scalar(idx("unsigned int"))), plain("ring", arr(n)), plain("head", Ty::Scalar(idx("unsigned int"))),
                               plain("tail", Ty::Scalar(idx("unsigned short"))), plain("epoch", Ty::Scalar(idx("unsigned long long")))] }));
         }
